@@ -34,6 +34,8 @@ func runC17(c *Ctx) {
 	runC17R6(c, "R6-pass-host-default")
 	r.Rule("R7-request-target-verbatim", "the director sends RequestURI verbatim after the original director, every reverse proxy gets it, routers match on the encoded path (upstream router iff proxyRawPath)", 4)
 	runC17R7(c, "R7-request-target-verbatim")
+	r.Rule("R12-health-check-claims-own-paths-only", "the ping middleware claims a request — and keeps it from its upstream — only on a set hit of its own escaped path or User-Agent, verbatim (shared with C13.R12, round 8)", 1)
+	runOwnEndpointKeyVerbatim(c, "R12-health-check-claims-own-paths-only")
 	r.Rule("R9-upstream-config-verbatim", "the structured configuration's upstreamConfig reaches Options.UpstreamServers as a whole (proxyRawPath included); a legacy --upstream is routed under the decoded path of its URL", 2)
 	runC17R9(c, "R9-upstream-config-verbatim")
 	r.Rule("R10-upstream-handlers-delegate", "the per-upstream handlers (file server, HTTP/WebSocket proxy) hand every request to the handler they wrap, with the caller's writer and request, and never answer themselves", 2)
